@@ -166,7 +166,6 @@ const W_PONG_ECHOED: u64 = 8;
 const W_FRAGMENTS_REASSEMBLED: u64 = 16;
 const W_IN_PIECES: u64 = 32;
 const W_FOLLOW_UP_ARRIVED: u64 = 64;
-const W_IGNORED_OR_ENDED_SEEN_BOTH: u64 = 0; // (nothing to require: which of the two happens is the subject's choice)
 const W_PENDING_RESOLVED_CLOSED: u64 = 128;
 
 #[derive(Clone, Debug)]
@@ -376,8 +375,9 @@ fn exec(c: &Cfg, render: bool) -> RunOutput {
             } else if !pings.is_empty() {
                 wit |= W_PONG_ECHOED;
             }
-            // nothing but Pongs came back
-            if frames.len() != setup_frames + pongs.len() {
+            // nothing but Pongs (and credit for the bystander) came back
+            let other = frames[setup_frames..].iter().filter(|(op, p)| !(*op == 10 || *op == 2 && matches!(codec::decode(p), Ok(RFrame::Acknowledge { id: BYSTANDER, .. })))).count();
+            if other != 0 {
                 push_viol(&mut viol, "tungpeer.result", format!("{what}: the connection goes on, but the endpoint sent something besides Pongs: {:02x?}", &frames[setup_frames..]));
             }
         }
@@ -429,7 +429,6 @@ fn exec(c: &Cfg, render: bool) -> RunOutput {
     h.byte(u8::from(task_done) | u8::from(matches!(result, Some(Err(_)))) << 1);
     h.u64(frames.len() as u64);
     drop(obs);
-    let _ = W_IGNORED_OR_ENDED_SEEN_BOTH;
     let out = RunOutput {
         blocked: false,
         steps: w.sim.steps,
@@ -472,12 +471,13 @@ pub fn run(args: &Args) -> Report {
             for chunk in if seq.len() == 1 { vec![0usize, 5] } else { vec![0] } {
                 let cfg = Cfg { side, seq: seq.clone(), chunk };
                 let label = format!("{LABEL_PREFIX}raw byte-level peer sends {seq:?} to the {} endpoint, {}", if side == 0 { "client-role" } else { "server-role" }, if chunk == 0 { "each element in one piece".to_string() } else { format!("in pieces of {chunk} octets") });
-                cases.push(Case { try_unbounded: false, max_k: if seq.len() == 1 { u32::MAX } else { 1 }, label, exec: Box::new(move |r| exec(&cfg, r)) });
+                cases.push(Case { try_unbounded: false, max_k: if seq.len() == 1 { u32::MAX } else { 2 }, label, exec: Box::new(move |r| exec(&cfg, r)) });
             }
         }
     }
     let plan = Plan {
-        ks: if thorough { vec![0, 1, 2] } else { vec![0, 1] },
+        // (the schedules are short, some twenty steps, k <= 1 gives only 1 802 executions: the quick tier goes to k <= 2)
+        ks: if thorough { vec![0, 1, 2, 3] } else { vec![0, 1, 2] },
         env: 0,
         fault: 0,
         total_wall: Duration::from_secs(if thorough { 900 } else { 40 }),
